@@ -412,6 +412,7 @@ void add_type(Node *node);
 
 void codegen(Obj *prog, FILE *out);
 bool has_flonum(Type *ty, int lo, int hi, int offset);
+bool has_ldouble(Type *ty);
 int align_to(int n, int align);
 
 //
